@@ -225,9 +225,11 @@ CLAIMED['C10'] = dict(
          'stays well formed; C10.K1 Value == and Hash of a list reached through an alias taken before it grew: reported as the '
          'known finding F7 (identity is the raw address; aliases become unequal and map keys are lost after growth); C10.K2 the map\'s key '
          'equality (real <Value as PartialEq>::eq on (v, v)) and Hash for every well-formed value in both representations: a key finds '
-         'itself - known finding F61 (NaN in the tagged-enum build: IEEE == is not reflexive, a NaN key is never found again). Identity of '
-         'maps / instances under mutation (no forwarding involved) and the partial root rewriting (scan_roots) are not yet machine '
-         'checked.',
+         'itself - known finding F61 (NaN in the tagged-enum build: IEEE == is not reflexive, a NaN key is never found again). C10.K3 every native of '
+         'List that can grow its receiver asks has_moved() after the growing call and rewrites the roots when it moved; C10.K4 the real '
+         'Fiber::scan_roots on one stack slot (any value, containers of <= 2 elements, forwarding as uninterpreted functions): the slot and the '
+         'elements one level below it are rewritten, nothing else changes (deeper aliases: F7). Identity of '
+         'maps / instances under mutation (no forwarding involved) and scan_roots over map values are not yet machine checked.',
     note='Trusted: rustc MIR printer, mirsym, block memory model, Z3. F7 is a genuine defect recorded in known_findings.json '
          '(repair needs a growth-stable identity; not a small change).',
     ref='§4 C10')
